@@ -272,7 +272,8 @@ func mergeCustomObjectFields(aTypes, bTypes map[string]*ast.Definition, a, b *as
 	isOverlappinggMap := make(map[int]bool)
 	mf := mergeableFields(b)
 	for i, f := range mf {
-		if isIDField(f) {
+		// id is shared between the services; it is only taken from b when a has none
+		if isIDField(f) && result.ForName(f.Name) != nil {
 			continue
 		}
 
